@@ -28,7 +28,7 @@ FLOORS = {"needs-renaming": 0.3}
 def cases(draw, tier="quick"):
     keys = draw(gen.key_universe(POOLS, min_size=2, max_size=12, allow_digit_first=True))
     for k in draw(gen.composed_keys()):
-        if gen.fold(k) not in {gen.fold(x) for x in keys} and not gen.class_name_collision(keys + [k]):
+        if gen.fold(k) not in {gen.fold(x) for x in keys} and not gen.class_name_collision(keys + [k]) and not gen.digit_word_collision(keys + [k]):
             keys.append(k)
     kinds = []
     for k in keys:
@@ -74,7 +74,7 @@ def valid(case):
         if "optional" in case and not (isinstance(case["optional"], list) and len(case["optional"]) == len(keys)
                                        and all(isinstance(x, bool) for x in case["optional"])):
             return False
-        if len({gen.fold(k) for k in keys}) != len(keys) or gen.class_name_collision(keys):
+        if len({gen.fold(k) for k in keys}) != len(keys) or gen.class_name_collision(keys) or gen.digit_word_collision(keys):
             return False
         for k, kind in zip(keys, kinds):
             if gen.key_status(k, allow_digit_first=True) is not None:
